@@ -39,10 +39,10 @@ Definition trace (n : nat) (t0 : Z) (ops : list op) : list stp := map obs_step (
 (** ---- monitor driver ---- *)
 Definition ml0 (t0 : Z) : mlink := ML (obs_link (link0 t0)) false false false true true None false false 0.
 
-Fixpoint mon_links (o : op) (cfg : Z) (i : nat) (ms : list mlink) (qs : list lobs) (ws : list (list Z))
+Fixpoint mon_links (o : op) (cfg : Z) (pb : bool) (i : nat) (ms : list mlink) (qs : list lobs) (ws : list (list Z))
   : list (N * mlink) :=
   match ms, qs with
-  | m :: mt, q :: qt => mon_link o cfg i m q (hd [] ws) :: mon_links o cfg (S i) mt qt (tl ws)
+  | m :: mt, q :: qt => mon_link o cfg pb i m q (hd [] ws) :: mon_links o cfg pb (S i) mt qt (tl ws)
   | _, _ => []
   end.
 
@@ -59,15 +59,16 @@ Definition c_survivors (o : op) (cfg : Z) (ms : list mlink) (g : gobs) : bool :=
 Fixpoint first_code (l : list N) : N :=
   match l with [] => 0%N | c :: t => if (c =? 0)%N then first_code t else c end.
 
-Record mstate := MS { ms_links : list mlink; ms_cfg : Z }.
-Definition ms0 (n : nat) (t0 : Z) : mstate := MS (repeat (ml0 t0) n) CONN_TIMEOUT_MS.
+Record mstate := MS { ms_links : list mlink; ms_cfg : Z; ms_probing : bool }.
+Definition ms0 (n : nat) (t0 : Z) : mstate := MS (repeat (ml0 t0) n) CONN_TIMEOUT_MS false.
 
 (** one step: the codes raised (per link, then the global clause) and the new bookkeeping.
-    The configured timeout the clauses use is the one in force *before* the op. *)
+    The configured timeout (and the probing flag) the clauses use are the ones in force
+    *before* the op. *)
 Definition mon_step (ms : mstate) (st : stp) : list N * mstate :=
-  let rs := mon_links (s_op st) (ms_cfg ms) O (ms_links ms) (s_links st) (s_wire st) in
+  let rs := mon_links (s_op st) (ms_cfg ms) (ms_probing ms) O (ms_links ms) (s_links st) (s_wire st) in
   let cg : N := if c_survivors (s_op st) (ms_cfg ms) (ms_links ms) (s_glob st) then 0%N else 4%N in
-  (map fst rs ++ [cg], MS (map snd rs) (q_cfg (s_glob st))).
+  (map fst rs ++ [cg], MS (map snd rs) (q_cfg (s_glob st)) (q_probing (s_glob st))).
 
 Fixpoint mon_codes (ms : mstate) (tr : list stp) : list (list N) :=
   match tr with
@@ -75,15 +76,12 @@ Fixpoint mon_codes (ms : mstate) (tr : list stp) : list (list N) :=
   | st :: r => let '(cs, ms') := mon_step ms st in cs :: mon_codes ms' r
   end.
 
-Definition core_ok (c : N) : bool := (c =? 0)%N || (c =? 6)%N || (c =? 7)%N.
+Definition core_ok (c : N) : bool := (c =? 0)%N || (c =? 7)%N.
 
-(** the property, except the two clauses that are only partially provable (6: default
-    window at a rejoin — refuted for pre-registration data; 7: the 30 s rejoin bound —
-    liveness under environment assumptions) *)
+(** the property, except the clause that is only partially provable (7: the 30 s rejoin
+    bound — liveness under environment assumptions) *)
 Definition ok_C08 (n : nat) (t0 : Z) (tr : list stp) : bool :=
   forallb (forallb core_ok) (mon_codes (ms0 n t0) tr).
-Definition ok_C08_window (n : nat) (t0 : Z) (tr : list stp) : bool :=
-  forallb (forallb (fun c => negb (c =? 6)%N)) (mon_codes (ms0 n t0) tr).
 Definition ok_C08_bound (n : nat) (t0 : Z) (tr : list stp) : bool :=
   forallb (forallb (fun c => negb (c =? 7)%N)) (mon_codes (ms0 n t0) tr).
 
